@@ -5,13 +5,19 @@ from harness import dtwgen
 
 COQ_FILES = ["theories/BandTie.v", "theories/Prune.v", "theories/PyDist.v", "theories/PyDistProofs.v",
              "theories/PyDistPrune.v", "gen/Gen_cdist.v", "theories/CDistCanon.v", "theories/CDistTie.v",
-             "theories/CDistProofs.v", "theories/CDistSpec.v", "gen/Gen_ced.v", "theories/CEd.v", "gen/Gen_pydist.v", "theories/PyDistGen.v", "props/C03.v"]
+             "theories/CDistProofs.v", "theories/CDistSpec.v", "gen/Gen_ced.v", "theories/CEd.v", "gen/Gen_pydist.v", "theories/PyDistGen.v",
+             "gen/Gen_cwpsk.v", "theories/CWpsCanon.v", "theories/CWpsCanonEu.v", "theories/CWpsKernel.v", "theories/CWpsTie.v", "theories/CWpsTieEu.v", "props/C03.v"]
 THEOREMS = [("DVProps.C03", "C03_pruning_sound_partial"), ("DVProps.C03", "C03_max_dist_result_partial"),
             ("DVProps.C03", "C03_euclidean_bound_keeps_value"), ("DVProps.C03", "C03_pruned_code_model_exact"),
             ("DVProps.C03", "C03_c_kernel_result_is_bounded_value"), ("DVProps.C03", "C03_c_kernel_no_bound_no_cut"),
-            ("DVProps.C03", "C03_c_use_pruning_keeps_value"), ("DVProps.C03", "C03_py_distance_as_written_bounded")]
+            ("DVProps.C03", "C03_c_use_pruning_keeps_value"), ("DVProps.C03", "C03_py_distance_as_written_bounded"),
+            ("DVProps.C03", "C03_c_wps_rows_share_one_pruning_core")]
 TRUSTED_BASE = [
     "Coq 8.16.1 kernel (no native_compute)",
+    "the pruning bookkeeping of the two C warping-paths kernels (Gen_cwpsk.v, regenerated whole): all eight row loops "
+    "are proved to be the one row core CWpsKernel.k_wrow_core (C03_c_wps_rows_share_one_pruning_core); that this core "
+    "is exact under a bound is NOT proved (proved without a bound under C04) - it is compared with the specification "
+    "on inputs (sites c.wps*, streams with begin relaxation x narrow window x bound)",
     "the sc/ec/ec_next/smaller_found/break bookkeeping of dtw.distance is modelled as written (PyDist.distp_model, "
     "rolling buffer, regenerated index arithmetic) and PROVED exact for every bound when there is no begin relaxation "
     "(C03_pruned_code_model_exact); the hand model is tied to dtw.distance and dtw_distance (C) by correspondence "
@@ -67,6 +73,7 @@ def gen_cases(rng, tier):
                 p2b = rng.choice([0, 0, rng.randint(1, min(3, mr - 1))])
                 s["psi"] = [p1b, rng.choice([0, 0, 1]), p2b, rng.choice([0, 0, 1])]
                 s["window"] = rng.choice([None, None, max(case["r"], case["c"])])
+                narrow = rng.random() < 0.4
                 mode = "max_dist"
                 if rng.random() < 0.6:
                     # the canonical use of begin relaxation: series 1 = junk prefix of length psi_1b + a noisy copy of
@@ -76,6 +83,10 @@ def gen_cases(rng, tier):
                     body = [v + rng.choice([0, 0, 0, 1, -1]) for v in s2]
                     case["s1"] = [rng.choice([7, 9, -8]) for _ in range(p1b)] + body
                     s["psi"] = [p1b, 0, p2b if p2b < len(s2) else 0, rng.choice([0, 0, 1])]
+                    if narrow:
+                        # ... and a window narrow enough that the rows up to psi_1b lie in the FIRST row region of the
+                        # compact C layout (each region has its own copy of the reset of the pruned start column)
+                        s["window"] = p1b + rng.choice([1, 1, 2])
                 dtwgen.derived(case)
         case["mode"] = mode
         if mode == "max_dist":
